@@ -256,8 +256,8 @@ func run(sp *varSpec, byName bool, ops []int) (fail string, judged bool) {
 		}
 	}
 	var m [2]builderModel
-	cur := orig      // epoch reading
-	curLit := orig   // literal reading ("before its first mock in that builder")
+	cur := orig    // epoch reading
+	curLit := orig // literal reading ("before its first mock in that builder")
 	judged = true
 	for step, op := range ops {
 		if op == opGC {
@@ -388,81 +388,89 @@ func Run(c *vk.Ctx) {
 		vk.Fatalf("unknown var %s", cs.Var)
 	}
 
-	depth, nb, heapDepth := 5, 1, 4
+	// passes: (depth, builders, depth for heap-original variables, shortest history judged in this pass)
+	type pass struct{ depth, nb, heapDepth, minLen int }
+	passes := []pass{{5, 1, 4, 1}}
 	if c.Thorough() {
-		depth, nb, heapDepth = 6, 2, 5
+		// two builders up to depth 5, one builder at depth 6 (its shorter histories are part of the first pass)
+		passes = []pass{{5, 2, 5, 1}, {6, 1, 5, 6}}
 	}
-	alpha := nOps * nb
 	var idx int64
-	for si := range sps {
-		sp := &sps[si]
-		for _, byName := range []bool{false, true} {
-			if byName && !sp.byName {
-				continue
-			}
-			var rec func(prefix []int)
-			rec = func(prefix []int) {
-				if c.Full() || c.Expired() {
-					return
+	for _, ps := range passes {
+		depth, nb, heapDepth, minLen := ps.depth, ps.nb, ps.heapDepth, ps.minLen
+		alpha := nOps * nb
+		for si := range sps {
+			sp := &sps[si]
+			for _, byName := range []bool{false, true} {
+				if byName && !sp.byName {
+					continue
 				}
-				mine := c.Mine(idx)
-				idx++
-				if mine && len(prefix) > 0 {
-					c.Res.Evaluations++
-					c.Res.Traces++
-					c.Res.Transitions += int64(len(prefix))
-					if heapVars[sp.name] {
-						c.Note(fmt.Sprintf(`{"__key":"var=%s by_name=%v ops=%s","var":%q,"by_name":%v,"ops":["%s"]}`, sp.name, byName, strings.Join(opsToStrings(prefix), ","), sp.name, byName, strings.Join(opsToStrings(prefix), `","`)))
+				var rec func(prefix []int)
+				rec = func(prefix []int) {
+					if c.Full() || c.Expired() {
+						return
 					}
-					f, judged := run(sp, byName, prefix)
-					if !judged {
-						c.Res.Unjudged++
+					mine := false
+					if len(prefix) >= minLen {
+						mine = c.Mine(idx)
+						idx++
 					}
-					cs := Case{sp.name, byName, opsToStrings(prefix)}
-					mocked := false
-					for _, o := range prefix {
-						if o != opGC && (o%nOps <= opApply3 || o%nOps == opForeign) {
-							mocked = true
+					if mine && len(prefix) > 0 {
+						c.Res.Evaluations++
+						c.Res.Traces++
+						c.Res.Transitions += int64(len(prefix))
+						if heapVars[sp.name] {
+							c.Note(fmt.Sprintf(`{"__key":"var=%s by_name=%v ops=%s","var":%q,"by_name":%v,"ops":["%s"]}`, sp.name, byName, strings.Join(opsToStrings(prefix), ","), sp.name, byName, strings.Join(opsToStrings(prefix), `","`)))
+						}
+						f, judged := run(sp, byName, prefix)
+						if !judged {
+							c.Res.Unjudged++
+						}
+						cs := Case{sp.name, byName, opsToStrings(prefix)}
+						mocked := false
+						for _, o := range prefix {
+							if o != opGC && (o%nOps <= opApply3 || o%nOps == opForeign) {
+								mocked = true
+							}
+						}
+						if mocked {
+							c.Res.Nontrivial++ // every enumerated history is distinct by construction
+						}
+						c.Sample(cs)
+						if f != "" {
+							cls := failClass(f)
+							min := vk.Minimize(prefix, func(s []int) bool {
+								g, _ := run(sp, byName, s)
+								return g != "" && failClass(g) == cls
+							})
+							g, _ := run(sp, byName, min)
+							mc := Case{sp.name, byName, opsToStrings(min)}
+							c.Violate(fmt.Sprintf("var=%s by_name=%v ops=%s class=%s", sp.name, byName, strings.Join(mc.Ops, ","), cls), g, mc)
 						}
 					}
-					if mocked {
-						c.Res.Nontrivial++ // every enumerated history is distinct by construction
+					if len(prefix) == depth || heapVars[sp.name] && len(prefix) == heapDepth {
+						return // heap-original variables (with the GC operation): depth 4 quick, 5 thorough
 					}
-					c.Sample(cs)
-					if f != "" {
-						cls := failClass(f)
-						min := vk.Minimize(prefix, func(s []int) bool {
-							g, _ := run(sp, byName, s)
-							return g != "" && failClass(g) == cls
-						})
-						g, _ := run(sp, byName, min)
-						mc := Case{sp.name, byName, opsToStrings(min)}
-						c.Violate(fmt.Sprintf("var=%s by_name=%v ops=%s class=%s", sp.name, byName, strings.Join(mc.Ops, ","), cls), g, mc)
+					for o := 0; o < alpha; o++ {
+						if o%nOps == opSetBad && (byName || ifaceVars[sp.name]) {
+							continue // by name a mismatching type is documented as undefined; an interface variable accepts any type
+						}
+						if o%nOps == opForeign && o/nOps > 0 {
+							continue // the foreign write does not belong to a builder: enumerate it once
+						}
+						rec(append(prefix[:len(prefix):len(prefix)], o))
+					}
+					if heapVars[sp.name] && len(prefix) > 0 && !hasGC(prefix) {
+						rec(append(prefix[:len(prefix):len(prefix)], opGC))
 					}
 				}
-				if len(prefix) == depth || heapVars[sp.name] && len(prefix) == heapDepth {
-					return // heap-original variables (with the GC operation): depth 4 quick, 5 thorough
-				}
-				for o := 0; o < alpha; o++ {
-					if o%nOps == opSetBad && (byName || ifaceVars[sp.name]) {
-						continue // by name a mismatching type is documented as undefined; an interface variable accepts any type
-					}
-					if o%nOps == opForeign && o/nOps > 0 {
-						continue // the foreign write does not belong to a builder: enumerate it once
-					}
-					rec(append(prefix[:len(prefix):len(prefix)], o))
-				}
-				if heapVars[sp.name] && len(prefix) > 0 && !hasGC(prefix) {
-					rec(append(prefix[:len(prefix):len(prefix)], opGC))
-				}
+				rec(nil)
 			}
-			rec(nil)
 		}
 	}
 	c.Res.States = c.Res.Nontrivial
-	c.Res.Extra["depth"] = depth
-	c.Res.Extra["builders"] = nb
-	c.Res.Extra["alphabet"] = alpha
+	c.Res.Extra["passes_depth_builders_heapdepth_minlen"] = fmt.Sprint(passes)
+	c.Res.Extra["ops"] = nOps
 	c.Res.Extra["variables"] = len(sps)
 	c.Finish()
 }
